@@ -6,6 +6,7 @@ import (
 	"strings"
 	"time"
 
+	"github.com/projecteru2/core/rpc"
 	coretypes "github.com/projecteru2/core/types"
 
 	"verif/sim/simengine"
@@ -253,4 +254,13 @@ func (w *cluWorld) lastIdent() string {
 		return p[len(p)-1]
 	}
 	return ""
+}
+
+// vibranium returns the RPC layer over the running core instance (one per instance).
+func (w *cluWorld) vibranium() *rpc.Vibranium {
+	if w.vib == nil || w.vibOf != w.core {
+		w.vib = rpc.New(w.core.cal, w.ccfg, make(chan struct{}))
+		w.vibOf = w.core
+	}
+	return w.vib
 }
